@@ -1003,6 +1003,49 @@ func c10TaskWiring(c *Ctx) {
 				okNil = false // waits on a nil channel
 			}
 		}
+		// every event taken from the channel ends the task with ErrLinkChange: none is consumed and dropped
+		// (a "drain stale events" loop would discard a link change that arrived while the interface was
+		// being dialled — the channel outlives the connections)
+		consumed := ""
+		var cls []*ssa.Function
+		var collect func(f *ssa.Function)
+		collect = func(f *ssa.Function) {
+			cls = append(cls, f)
+			for _, a := range f.AnonFuncs {
+				collect(a)
+			}
+		}
+		collect(lw)
+		for _, f := range cls {
+			for _, p := range c.pathsO("R-C10-8", f, an.PathOpts{EmitCut: true}) {
+				took := false
+				for _, a := range selectArmsOf(p) {
+					if strings.Contains(a.chanExpr, "watchC") {
+						took = true
+					}
+				}
+				p.Instrs(func(in ssa.Instruction) {
+					if u, ok := in.(*ssa.UnOp); ok && u.Op == token.ARROW && strings.Contains(p.Of(u.X).String(), "watchC") {
+						took = true
+					}
+				})
+				if !took {
+					continue
+				}
+				open := true
+				for _, a := range p.Atoms {
+					if a.Cond.Op == an.OpUnknown && a.Cond.Name == "select.recvOk" && !a.Pos {
+						open = false
+					}
+				}
+				ends := p.Ret != nil && len(p.Results) == 1 && p.Results[0].Op == an.OpGlobal && p.Results[0].Name == "system.ErrLinkChange"
+				if open && !ends {
+					consumed = fmt.Sprintf("%s: a value received from watchC does not end the task (path ends in %s)", c.fname(f), pathKind(p))
+				}
+			}
+		}
+		c.R.Check(consumed == "", "R-C10-8", c.fname(lw)+":no-event-consumed-silently", c.fname(lw), c.pos(lw.Pos()), consumed+"",
+			"every value received from the link channel (while it is open) makes the watcher return ErrLinkChange", "a link change is swallowed: the task keeps running on a dead interface")
 		c.R.Check(okNil && nSel >= 1, "R-C10-8", c.fname(lw)+":waits-when-channel-exists", c.fname(lw), c.pos(lw.Pos()), fmt.Sprintf("%d waiting path(s); nil-channel handling consistent=%v", nSel, okNil),
 			"returns at once only for a nil channel; otherwise waits for ctx.Done() or an event", "the link watcher exits immediately although a channel exists")
 	}
